@@ -869,19 +869,9 @@ func (r *Reader) processParagraph(p paragraphXML) parsedParagraph {
 		parsed.IndentFirst = resolved.IndentFirst
 	}
 
-	// Extract text
-	var textParts []string
-
-	// Direct text content
-	if p.Text != "" {
-		textParts = append(textParts, p.Text)
-	}
-
-	// Text from spans
+	// Text from spans (formatting runs)
 	for _, span := range p.Spans {
 		if span.Text != "" {
-			textParts = append(textParts, span.Text)
-
 			// Create run for formatting
 			pr := parsedRun{Text: span.Text}
 			if r.styleResolver != nil {
@@ -898,7 +888,8 @@ func (r *Reader) processParagraph(p paragraphXML) parsedParagraph {
 		}
 	}
 
-	parsed.Text = strings.Join(textParts, "")
+	// Paragraph text in document order (direct text, spans, tabs, breaks)
+	parsed.Text = extractParagraphText(p)
 
 	return parsed
 }
@@ -944,6 +935,10 @@ func (r *Reader) processHeading(h headingXML) parsedParagraph {
 	}
 
 	parsed.Text = strings.Join(textParts, "")
+	if h.decoded {
+		// headings decoded from XML carry their text in document order
+		parsed.Text = h.content
+	}
 
 	return parsed
 }
